@@ -1,6 +1,9 @@
 #include "enums.h"
+#include "../../core/interpreter.h"
 #include "../../services/debug_service.h"
+#include "manager.h"
 #include <sstream>
+#include <vector>
 
 void EnumManager::register_enum(const std::string &enum_name,
                                 const EnumDefinition &definition) {
@@ -28,7 +31,7 @@ void EnumManager::register_enum(const std::string &enum_name,
 }
 
 const EnumDefinition *
-EnumManager::get_enum_definition(const std::string &enum_name) const {
+EnumManager::get_enum_definition(const std::string &enum_name) {
     auto it = enum_definitions_.find(enum_name);
     if (it != enum_definitions_.end()) {
         return &it->second;
@@ -56,18 +59,157 @@ EnumManager::get_enum_definition(const std::string &enum_name) const {
         if (it != enum_definitions_.end()) {
             return &it->second;
         }
+        return instantiate_generic_enum(enum_name);
+    }
+
+    // The declared type of `Maybe<T> m;` is spelled "Maybe_T" by the parser,
+    // hence "Maybe_long" in f<long>: the longest prefix that names a generic
+    // enum, followed by one known type per type parameter.
+    for (size_t pos = enum_name.rfind('_');
+         interpreter_ && pos != std::string::npos && pos > 0;
+         pos = enum_name.rfind('_', pos - 1)) {
+        auto base_it = enum_definitions_.find(enum_name.substr(0, pos));
+        if (base_it == enum_definitions_.end() || !base_it->second.is_generic) {
+            continue;
+        }
+        std::string spelled = base_it->first + "<";
+        size_t argument_count = 0;
+        for (size_t start = pos + 1, end = 0; end != std::string::npos;
+             start = end + 1) {
+            end = enum_name.find('_', start);
+            std::string argument = enum_name.substr(
+                start, end == std::string::npos ? end : end - start);
+            if (interpreter_->get_type_manager()->string_to_type_info(
+                    argument) == TYPE_UNKNOWN) {
+                return nullptr;
+            }
+            spelled += (argument_count++ > 0 ? ", " : "") + argument;
+        }
+        if (argument_count != base_it->second.type_parameters.size()) {
+            return nullptr;
+        }
+        return instantiate_generic_enum(spelled + ">");
     }
     return nullptr;
 }
 
-bool EnumManager::has_associated_values(const std::string &enum_name) const {
+// The parser instantiates `Maybe<long>` when it meets that spelling in the
+// source. An instantiation that only comes into being at run time -
+// `Maybe<T>::Just(v)` in the body of f<T>, instantiated as f<long> - is created
+// here on first lookup, in the same way and under the same names
+// (cf. RecursiveParser::instantiateGenericEnum).
+const EnumDefinition *
+EnumManager::instantiate_generic_enum(const std::string &enum_name) {
+    auto trim = [](const std::string &text) {
+        size_t first = text.find_first_not_of(" \t");
+        size_t last = text.find_last_not_of(" \t");
+        return first == std::string::npos
+                   ? std::string()
+                   : text.substr(first, last - first + 1);
+    };
+
+    size_t lt_pos = enum_name.find('<');
+    size_t gt_pos = enum_name.rfind('>');
+    if (lt_pos == std::string::npos || gt_pos == std::string::npos ||
+        gt_pos < lt_pos || gt_pos + 1 != enum_name.size()) {
+        return nullptr;
+    }
+
+    std::string base_name = trim(enum_name.substr(0, lt_pos));
+    auto base_it = enum_definitions_.find(base_name);
+    if (base_it == enum_definitions_.end() || !base_it->second.is_generic) {
+        return nullptr;
+    }
+
+    // 型引数をトップレベルのカンマで分割（Either<Box<int>, long> など）
+    std::vector<std::string> type_arguments;
+    std::string current;
+    int depth = 0;
+    for (size_t i = lt_pos + 1; i < gt_pos; ++i) {
+        char c = enum_name[i];
+        if (c == ',' && depth == 0) {
+            type_arguments.push_back(trim(current));
+            current.clear();
+            continue;
+        }
+        depth += (c == '<') - (c == '>');
+        current += c;
+    }
+    type_arguments.push_back(trim(current));
+
+    const EnumDefinition &generic_base = base_it->second;
+    if (type_arguments.size() != generic_base.type_parameters.size()) {
+        return nullptr;
+    }
+
+    // パーサーと同じ表記 "Either<int, long>" と "Either_int_long" で登録する
+    std::string instantiated_name = base_name + "<";
+    std::string mangled_name = base_name;
+    std::unordered_map<std::string, std::string> type_map;
+    for (size_t i = 0; i < type_arguments.size(); ++i) {
+        if (type_arguments[i].empty()) {
+            return nullptr;
+        }
+        instantiated_name += (i > 0 ? ", " : "") + type_arguments[i];
+        type_map[generic_base.type_parameters[i]] = type_arguments[i];
+
+        // 型引数の特殊文字は '_' に置換し、連続・末尾の '_' は取り除く
+        std::string cleaned;
+        for (char c : type_arguments[i]) {
+            if (c == '<' || c == '>' || c == ',' || c == ' ' || c == '*') {
+                c = '_';
+            }
+            if (c != '_' || cleaned.empty() || cleaned.back() != '_') {
+                cleaned += c;
+            }
+        }
+        while (!cleaned.empty() && cleaned.back() == '_') {
+            cleaned.pop_back();
+        }
+        mangled_name += "_" + cleaned;
+    }
+    instantiated_name += ">";
+    auto existing = enum_definitions_.find(instantiated_name);
+    if (existing != enum_definitions_.end()) {
+        return &existing->second;
+    }
+
+    EnumDefinition instantiated(instantiated_name);
+    instantiated.is_generic = false;
+    instantiated.has_associated_values = generic_base.has_associated_values;
+    instantiated.members = generic_base.members;
+    for (auto &member : instantiated.members) {
+        auto bound = type_map.find(member.associated_type_name);
+        if (member.has_associated_value && bound != type_map.end()) {
+            member.associated_type_name = bound->second;
+            member.associated_type =
+                bound->second.find('*') != std::string::npos
+                    ? TYPE_POINTER
+                    : (interpreter_ ? interpreter_->get_type_manager()
+                                          ->string_to_type_info(bound->second)
+                                    : TYPE_UNKNOWN);
+        }
+    }
+
+    DEBUG_INFO(GENERAL, "Instantiated generic enum %s (also as %s)",
+               instantiated_name.c_str(), mangled_name.c_str());
+    if (mangled_name != instantiated_name &&
+        enum_definitions_.find(mangled_name) == enum_definitions_.end()) {
+        EnumDefinition mangled = instantiated;
+        mangled.name = mangled_name;
+        enum_definitions_[mangled_name] = mangled;
+    }
+    return &(enum_definitions_[instantiated_name] = instantiated);
+}
+
+bool EnumManager::has_associated_values(const std::string &enum_name) {
     const EnumDefinition *definition = get_enum_definition(enum_name);
     return definition && definition->has_associated_values;
 }
 
 bool EnumManager::get_enum_value(const std::string &enum_name,
                                  const std::string &member_name,
-                                 int64_t &value) const {
+                                 int64_t &value) {
     const EnumDefinition *definition = get_enum_definition(enum_name);
     if (!definition) {
         DEBUG_ERROR(GENERAL, "Enum %s not found", enum_name.c_str());
